@@ -272,7 +272,7 @@ pub fn check(s: &'static dyn Proto, c: &Case, st: &mut Stats, _k: &KnownFindings
 
 pub const BUDGET: Budget = Budget {
     quick: (8, 4, 2),
-    thorough: (4, 2, 1),
+    thorough: (8, 4, 2),
     shrink: 12,
 };
 
